@@ -319,16 +319,17 @@ class Part(object):
         measures = np.array([(m.start.t, m.end.t) for m in self.iter_all(Measure)])
 
         # correct for anacrusis
-        divs_per_beat = self.inv_beat_map(
-            1 + self.beat_map(0)
-        )  # find the divs per beat in the first measure
-        if (
-            measures[0][1] - measures[0][0]
-            < self.time_signature_map(0)[0] * divs_per_beat
-        ):
-            measures[0][0] = (
-                measures[0][1] - self.time_signature_map(0)[0] * divs_per_beat
-            )
+        if len(measures) > 0:
+            divs_per_beat = self.inv_beat_map(
+                1 + self.beat_map(0)
+            )  # find the divs per beat in the first measure
+            if (
+                measures[0][1] - measures[0][0]
+                < self.time_signature_map(0)[0] * divs_per_beat
+            ):
+                measures[0][0] = (
+                    measures[0][1] - self.time_signature_map(0)[0] * divs_per_beat
+                )
 
         if len(measures) == 0:  # no measures in the piece
             # default only one measure spanning the entire timeline
@@ -378,16 +379,17 @@ class Part(object):
             ]
         )
         # correct for anacrusis
-        divs_per_beat = self.inv_beat_map(
-            1 + self.beat_map(0)
-        )  # find the divs per beat in the first measure
-        if (
-            measures[0][1] - measures[0][0]
-            < self.time_signature_map(0)[0] * divs_per_beat
-        ):
-            measures[0][0] = (
-                measures[0][1] - self.time_signature_map(0)[0] * divs_per_beat
-            )
+        if len(measures) > 0:
+            divs_per_beat = self.inv_beat_map(
+                1 + self.beat_map(0)
+            )  # find the divs per beat in the first measure
+            if (
+                measures[0][1] - measures[0][0]
+                < self.time_signature_map(0)[0] * divs_per_beat
+            ):
+                measures[0][0] = (
+                    measures[0][1] - self.time_signature_map(0)[0] * divs_per_beat
+                )
 
         if len(measures) == 0:  # no measures in the piece
             # default only one measure spanning the entire timeline
